@@ -10,9 +10,9 @@ type c16Mgr struct {
 	unregistered int
 }
 
-func (m *c16Mgr) Ctx() context.Context                 { return m.ctx }
-func (m *c16Mgr) UnregisterTunnel(id string) bool      { m.unregistered++; return true }
-func (m *c16Mgr) RegisterTunnel(t *Tunnel) error       { return nil }
+func (m *c16Mgr) Ctx() context.Context            { return m.ctx }
+func (m *c16Mgr) UnregisterTunnel(id string) bool { m.unregistered++; return true }
+func (m *c16Mgr) RegisterTunnel(t *Tunnel) error  { return nil }
 
 // Closing a connected tunnel from several goroutines at once runs the close body and
 // the onClosed callback exactly once and leaves it Closed.
